@@ -44,7 +44,7 @@ def gen_case(rng, idx, backend, crash_pos, mid):
 
 
 def generate(rng, tier):
-    n = dict(quick=500, thorough=30000, search=10000)[tier]
+    n = dict(quick=500, thorough=30000, search=2500)[tier]
     cases = []
     for i in range(n):
         backend = 'sqlite' if (tier != 'quick' and i % 15 == 0) else 'mem'
@@ -64,6 +64,11 @@ def oracle(case, impl):
             live, dead, sl, sd = parse_state(out)
             if live != sl or dead != sd:
                 bad.append('after restart the rebuilt set has live=%s tombstones=%s but storage holds live=%s tombstones=%s' % (live, dead, sl, sd))
+            # every mutation whose call had returned is still visible: a restart BETWEEN requests changes nothing the set showed
+            if i > 1 and case[i - 2] == 'state' and ' | store ' in impl[i - 2]:
+                bl, bd, _, _ = parse_state(impl[i - 2])
+                if (bl, bd) != (live, dead):
+                    bad.append('the set showed live=%s tombstones=%s before the stop (all calls had returned) but live=%s tombstones=%s after the restart' % (bl, bd, live, dead))
     return bad
 
 
